@@ -177,9 +177,10 @@ struct Rep {
 };
 #define C07_CK(cond, clause, extra) do { ::vf::checked(); if (!(cond)) rep.bad(clause, std::string(extra) + " [" #cond " @" __FILE__ ":" VF_STR(__LINE__) "]"); } while (0)
 
-// `dense`: size of the query grids.  `F` only supplies name() and bound().
+// `dense`: size of the query grids; `light`: only the side-effect-free part (n, extremes, iteration, space bound).
+// `F` only supplies name() and bound().
 template<typename F, typename T>
-Observed observe(const typename F::template SK<T>& sk, Model<T>& m, Rng& r, const std::string& ctx0, unsigned dense, bool do_invalid) {
+Observed observe(const typename F::template SK<T>& sk, Model<T>& m, Rng& r, const std::string& ctx0, unsigned dense, bool do_invalid, bool light = false) {
   typedef Tr<T> TT;
   typedef typename TT::Cmp Cmp;
   const Cmp cmp = Cmp();
@@ -283,6 +284,17 @@ Observed observe(const typename F::template SK<T>& sk, Model<T>& m, Rng& r, cons
     C07_CK(inrange, "iterator|item-outside-min-max", "");
   }
   F::template bound<T>(sk, retained, n, ctx);
+  if (light) {
+    // read-out without side effects: queries and the sorted view sort level 0 / the base buffer and cache the view,
+    // so some sketches must reach their next merge or update without ever having been queried
+    uint64_t wmask = 0;
+    for (const auto& p: its) wmask |= p.second;
+    o.min_weight = wmask & (~wmask + 1);
+    o.distinct_weights = popcount64(wmask);
+    fcount(fam, "obs_light");
+    sig(mix64(mix64(n, retained), mix64(est ? 3 : 2, mix64(o.min_weight, o.distinct_weights))));
+    return o;
+  }
 
   // ---------------------------------------------------------------- sorted view
   auto view = sk.get_sorted_view();
@@ -610,9 +622,9 @@ void run_case_t(uint64_t idx, Rng& r) {
     nd.hist += std::string(what) + "(" + shape_name(shape) + "," + std::to_string(n) + ")";
     if (want_sample() && sample_leaves.size() < 400) sample_leaves += "k" + std::to_string(k) + ":" + shape_name(shape) + ":" + std::to_string(n) + ";";
   };
-  auto obs = [&](N& nd, const char* after, bool after_merge, unsigned d) {
+  auto obs = [&](N& nd, const char* after, bool after_merge, unsigned d, bool light = false) {
     const Observed o = observe<F, T>(*nd.sk, nd.m, r, std::string("after ") + after + " " + F::cfg_str(cfg) + " k=" + std::to_string(nd.sk->get_k()) + " hist=" + nd.hist.substr(nd.hist.size() > 300 ? nd.hist.size() - 300 : 0),
-                                     d, r.chance(0.35));
+                                     d, r.chance(0.35), light);
     F::template counters<T>(*nd.sk, o, after_merge);
     return o;
   };
@@ -625,9 +637,9 @@ void run_case_t(uint64_t idx, Rng& r) {
     N& L = pool.back();
     if (r.chance(0.15)) obs(L, "construction", false, 8);
     grow_leaf(L, "upd");
-    const Observed o = obs(L, "leaf-updates", false, dense);
+    const Observed o = obs(L, "leaf-updates", false, dense, r.chance(0.5));
     fcount(fam, std::string("leaf_") + mode_name(o.empty, o.est));
-    if (r.chance(0.15)) { grow_leaf(L, "upd"); obs(L, "leaf-updates-2", false, dense); }
+    if (r.chance(0.15)) { grow_leaf(L, "upd"); obs(L, "leaf-updates-2", false, dense, r.chance(0.5)); }
   }
   // occasionally a copy of a leaf joins the tree (a sketch merged with its own copy)
   if (r.chance(0.15)) {
@@ -658,9 +670,9 @@ void run_case_t(uint64_t idx, Rng& r) {
       return;
     }
     A.m.absorb(B.m);
-    obs(A, cls.c_str(), true, dense);
+    obs(A, cls.c_str(), true, dense, r.chance(0.3));
     if (!rvalue && r.chance(0.3)) { obs(B, "being-merge-source", false, 12); fcount(fam, "source_reobserved"); }
-    if (r.chance(0.25)) { grow_leaf(A, " upd"); obs(A, "updates-after-merge", true, dense); fcount(fam, "update_after_merge"); }
+    if (r.chance(0.25)) { grow_leaf(A, " upd"); obs(A, "updates-after-merge", true, dense, r.chance(0.5)); fcount(fam, "update_after_merge"); }
     pool.erase(pool.begin() + static_cast<std::ptrdiff_t>(b));
   }
   N& root = pool[0];
